@@ -209,9 +209,9 @@ def facts : Facts := {
   allocSitesSized := 6
   typedAllocOK := true
   typedAllocSites := 6
-  decoderSkeleton := "ba10394e29aee3f971933331"
+  decoderSkeleton := "878b932a4f30f422bf1d8b29"
   encoderSkeleton := "5cbdaefa998ed87261c39697"
-  resolverSkeleton := "81ddf5e4a6fd247a7ee90fe2"
+  resolverSkeleton := "e05eca0bac682ad349a639e9"
   descTableSkeleton := "519afb8a5253956851c19cc0"
   topLevelUsesLimit := true
   createLocksRechecksBuildsPublishes := true
@@ -290,9 +290,10 @@ def facts : Facts := {
 --   range sd.requiredFieldIDs
 --   if !bs.test(fid) => return
 --   call bs.test
---   return i, newRequiredFieldNotSetException(lookupFieldName(sd.rt, sd.GetField(fid).Offset))
+--   return i, newRequiredFieldNotSetException(lookupFieldName(sd.rt, sd.GetField(fid).Offset, sd.GetField(fid).Type.RT))
 --   call newRequiredFieldNotSetException
 --   call lookupFieldName
+--   call sd.GetField
 --   call sd.GetField
 --   if ufs != nil && ufs.Size() > 0
 --   call ufs.Size
@@ -1049,7 +1050,8 @@ def facts : Facts := {
 --   call reflect.New(t).Interface
 --   call reflect.New
 --   call t.FieldByName
---   if ok && f.Type.Kind() == reflect.Slice && f.Type.Elem().Kind() == reflect.Uint8
+--   if ok && len(f.Index) == 1 && f.Type.Kind() == reflect.Slice && f.Type.Elem().Kind() == reflect.Uint8
+--   call len
 --   call f.Type.Kind
 --   call f.Type.Elem().Kind
 --   call f.Type.Elem
